@@ -2,6 +2,10 @@ import PraatModel.Proto
 import PraatModel.Crop
 import PraatModel.Ops
 import PraatModel.Query
+import PraatModel.RunAudio
+import PraatModel.RunNumeric
+import PraatModel.RunKlatt
+import PraatModel.RunIO
 
 /-! # line interpreter: one operation per line, one canonical output line -/
 
@@ -169,7 +173,19 @@ def runOp (op : String) : P String := do
   | "tg_align" =>
     let g ← P.tg (α := α); let n ← P.str; let md ← P.time
     pure (Out.exc Out.tg (g.alignBoundaries n md))
-  | _ => throw s!"unknown op {op}"
+  | _ =>
+    match runOpAudio (α := α) op with
+    | some p => p
+    | none =>
+    match runOpNumeric (α := α) op with
+    | some p => p
+    | none =>
+    match runOpKlatt (α := α) op with
+    | some p => p
+    | none =>
+    match runOpIO (α := α) op with
+    | some p => p
+    | none => throw s!"unknown op {op}"
 where
   samples : P (List (α × Nat)) := do
     let n ← P.nat
